@@ -1,6 +1,10 @@
 import BSModel.Proofs.Entities
 import BSModel.Proofs.Html5
 import BSModel.Proofs.Html5Fix
+import BSModel.Proofs.Html5Agree
+import BSModel.Proofs.EntitiesPopulate
+import BSModel.Gen.EntitiesSource
+import BSModel.Model.EntitiesGlue
 import BSModel.Gen.Entities
 import BSModel.Gen.EntitiesFormatters
 /-! # C09 — entity substitution and attribute quoting are reversible for every string
@@ -232,6 +236,41 @@ theorem html5_old_roundtrip_partial (T : Tbl) (h : TblOK T = true) (h5 : Html5OK
 example : readText BS.Gen.C09.htmlTable false 0 (substHtml5Old BS.Gen.C09.htmlTable (ofS "&lt;<& &&#60;a&;")) = ofS "&lt;<& &&#60;a&;" :=
   html5_old_roundtrip_partial _ tblOK_live html5OK_live _ _ (by decide +kernel)
 
+/-- The old function computes the same output as the repaired one — hence round-trips as text **and** as attribute
+    value — on every string where, at each `&`, "an entity body follows" (all the old first pass looked at) coincides
+    with the repaired decision; i.e. no `&` is followed by `#` without a complete numeric reference, by a name with `-`/`.`
+    and `;`, by a known name without `;`, or by a semicolon-optional name as a prefix. -/
+theorem html5_old_eq_fixed (T : Tbl) (h5 : Html5OK T = true) (s : PStr) (hs : ampsAgree T s = true) :
+    substHtml5Old T s = substHtml5 T s :=
+  let ⟨hw, hd, _, _⟩ := html5OK_spec h5
+  old_eq_fixed_of_agree hw hd s hs
+
+/-- `a`, `m`, `p` are word characters for `re` and `;` is not (needed for the converse below). -/
+theorem agreeOK_live : AgreeOK BS.Gen.C09.htmlTable = true := by decide +kernel
+
+/-- **Exactly** where the repair changes nothing: the outputs of 4.13.0's function and of the repaired one coincide if and
+    only if both take the same decision at every ampersand. (So the repair touches precisely the strings with an `&` before
+    `#` without a complete numeric reference, before a name with `-`/`.` and `;`, before a known name without `;`, or before a
+    semicolon-optional name as a prefix.) -/
+theorem html5_old_eq_fixed_iff (T : Tbl) (h : TblOK T = true) (h5 : Html5OK T = true) (hf : Html5FixOK T = true)
+    (ha : AgreeOK T = true) (s : PStr) : substHtml5Old T s = substHtml5 T s ↔ ampsAgree T s = true := by
+  constructor
+  · intro heq
+    obtain ⟨hw, hd, _, _⟩ := html5OK_spec h5
+    unfold substHtml5Old substHtml5 substHtml5With at heq
+    rw [escapeEntities_eq_spec hw hd] at heq
+    exact agree_of_old_eq_fixed (tblOK_plain h).1 (html5FixOK_spec hf).1 ha s heq
+  · exact html5_old_eq_fixed T h5 s
+
+theorem html5_old_roundtrip_of_agree (T : Tbl) (h : TblOK T = true) (h5 : Html5OK T = true) (hf : Html5FixOK T = true)
+    (late : Bool) (s : PStr) (hs : ampsAgree T s = true) :
+    readText T late 0 (substHtml5Old T s) = s ∧ readAttr T (quoteAttr (substHtml5Old T s)) = some s := by
+  rw [html5_old_eq_fixed T h5 s hs]
+  exact ⟨html5_text_roundtrip T h hf late s, html5_attr_roundtrip T h hf s⟩
+
+example : ampsAgree BS.Gen.C09.htmlTable (ofS "a &foo b &amp; & &1 <") = true ∧
+    ampsAgree BS.Gen.C09.htmlTable (ofS "&lt x") = false := by decide +kernel
+
 /-- Refutation 1 (finding `C09-html5-bare-legacy-ref`): the old function writes `&lt x` unchanged and it is read back as
     `< x`, both as text and as an attribute value. -/
 theorem html5_old_not_reversible_legacy_ref :
@@ -256,6 +295,48 @@ theorem html5_old_not_reversible_runaway :
     readText BS.Gen.C09.htmlTable false 0 (substHtml5Old BS.Gen.C09.htmlTable (ofS "&#x")) = ofS "&#x" ++ [RUNAWAY] := by
   decide +kernel
 
+/-! ## `_populate_class_variables`: what the construction of the regexes guarantees for ANY html5 table
+
+`populateParticles items` / `populateParticlesAmp items` mirror dammit.py:139-231 (`items = sorted(html5.items())`). The
+correspondence compares them — and `unicodeToName`, `nameToUnicode`, `legacyNames` — with what the real function computes,
+exactly, on the live tables and on synthetic html5 tables. The facts below hold by construction; the name round trip
+(`HTML_ENTITY_TO_CHARACTER[CHARACTER_TO_HTML_ENTITY[k]] = k`) does not (it depends on html5 and codepoint2name agreeing) and
+stays the decided table obligation `tblOK_live`. -/
+
+/-- The live `html.entities.html5`: every character sequence is non-empty, those that enter the regex have at most two code
+    points, none of them starts with `&`. -/
+theorem itemsOK_live : itemsOK BS.Gen.C09.html5Items = true ∧ itemsNoAmpHead BS.Gen.C09.html5Items = true := by
+  decide +kernel
+
+/-- The dictionary the readers use and the item list the construction starts from are the same data. -/
+theorem html5_dict_is_items_live : Dict.toList BS.Gen.C09.htmlTable.html5 = BS.Gen.C09.html5Items := by decide +kernel
+
+/-- Look-ahead makes the alternatives mutually exclusive — for every well-formed table, not only the shipped one. -/
+theorem populate_alternatives_exclusive (items : Items) (hok : itemsOK items = true)
+    (hamp : itemsNoAmpHead items = true) : Excl (populateParticles items) ∧ Excl (populateParticlesAmp items) :=
+  ⟨populate_exclusive hok, populateAmp_exclusive hok (itemsNoAmpHead_spec hamp)⟩
+
+/-- Hence the order in which the `set` of particles is joined never matters. -/
+theorem populate_order_irrelevant_any_table (items : Items) (hok : itemsOK items = true)
+    (hamp : itemsNoAmpHead items = true) (ps' : List Particle) (hp : ps'.Perm (populateParticlesAmp items))
+    (rep : PStr → PStr) (s : PStr) : reSub ps' rep 0 s = reSub (populateParticlesAmp items) rep 0 s :=
+  populate_order_irrelevant hok (itemsNoAmpHead_spec hamp) ps' hp rep s
+
+/-- `<`, `>` and every non-ASCII character html5 names are always caught by some alternative. -/
+theorem populate_catches_named_characters (items : Items) (hok : itemsOK items = true) (c : Nat)
+    (hc : ∃ it ∈ items, it.2 = [c] ∧ inRegex [c] = true ∧ c ≠ 38) : coversChar (populateParticles items) c = true :=
+  populate_covers hok hc
+
+/-- Every alternative has a name in `unicode_to_name` (so the `&amp;…;` fallback of `_substitute_html_entity` is dead code). -/
+theorem populate_alternatives_named (items : Items) (cp2name : List (Nat × PStr)) (p : Particle)
+    (hp : p ∈ populateParticles items) : (unicodeToName items cp2name p.key).isSome = true :=
+  populate_keys_named cp2name hp
+
+example : coversChar (populateParticles BS.Gen.C09.html5Items) 60 = true :=
+  populate_catches_named_characters _ itemsOK_live.1 60 ⟨(ofS "LT", [60]), by decide +kernel, rfl, by decide, by decide⟩
+example : populateParticlesAmp [(ofS "lt;", [60]), (ofS "nvlt;", [60, 8402]), (ofS "fjlig;", ofS "fj"), (ofS "amp", [38])] =
+    [⟨[60], [8402]⟩, ⟨[60, 8402], []⟩, ⟨[38], []⟩] := by decide
+
 /-! ## the registered formatters -/
 
 /-- The only strings `Formatter.substitute` leaves alone are those whose parent is one of the formatter's
@@ -274,6 +355,9 @@ theorem substitute_exempt (X : List (Nat × PStr)) (T : Tbl) (e : RegEntry) (t s
   split
   · rfl
   · simp [h]
+
+example : ∃ e ∈ BS.Gen.C09.htmlRegistry, e.fn = 2 ∧ ofS "script" ∈ e.cdata ∧ ofS "SCRIPT" ∉ e.cdata ∧
+    ofS "textarea" ∉ e.cdata := by decide
 
 /-- Any other parent makes no difference: the string is treated like a plain `str` (an attribute value), i.e. the
     formatter's function is applied. -/
@@ -335,5 +419,54 @@ theorem formatter_attr_roundtrip (X : List (Nat × PStr)) (T : Tbl) (hx : XmlOK 
   · exact html5_attr_roundtrip T h h5 s
 
 example : ∃ e ∈ BS.Gen.C09.htmlRegistry, e.fn = 3 ∧ ofS "textarea" ∉ e.cdata := by decide
+
+/-! ## from `decode(formatter=…)` to the substitution (`format_string`, `formatter_for_name`, `_format_tag`) -/
+
+/-- Whatever way the formatter is named — a `Formatter` object, a registry key, a function — a string under a parent that is
+    not one of the resulting formatter's `cdata_containing_tags` is written so that it reads back as the original, provided
+    the function is one of the three substitutions. -/
+theorem formatString_text_roundtrip (X : List (Nat × PStr)) (T : Tbl) (hx : XmlOK X T = true) (h : TblOK T = true)
+    (h5 : Html5FixOK T = true) (hreg xreg : List RegEntry) (d : List PStr) (isXml : Bool) (arg : FormatterArg)
+    (e : RegEntry) (hf : formatterForName hreg xreg d isXml arg = some e) (he : e.fn = 1 ∨ e.fn = 2 ∨ e.fn = 3)
+    (p : Option PStr) (hp : ∀ t, p = some t → t ∉ e.cdata) (late : Bool) (s : PStr) :
+    (formatString T X hreg xreg d isXml arg p s).map (readText T late 0) = some s := by
+  simp only [formatString, hf, Option.map_some]
+  rw [formatter_text_roundtrip X T hx h h5 e he p hp late s]
+
+/-- A function passed as `formatter` gets the default options of its class: `script`/`style` exempt in an HTML tree,
+    nothing exempt in an XML tree. -/
+theorem formatterForName_callable (hreg xreg : List RegEntry) (d : List PStr) (isXml : Bool) (fn : Nat) :
+    ∃ e, formatterForName hreg xreg d isXml (.callable fn) = some e ∧ e.fn = fn ∧
+      e.cdata = if isXml then [] else d := by
+  refine ⟨_, rfl, rfl, ?_⟩
+  cases isXml <;> rfl
+
+/-- The shipped registries: every named formatter is one of the three substitutions, with the documented exemptions. -/
+theorem named_formatters_live :
+    ([ofS "minimal", ofS "html", ofS "html5", ofS "html5-4.12"].all fun nm =>
+      (findFormatter BS.Gen.C09.htmlRegistry true nm).any fun e =>
+        (e.fn == 1 || e.fn == 2 || e.fn == 3) && e.cdata == [ofS "script", ofS "style"]) = true ∧
+    ([ofS "minimal", ofS "html"].all fun nm =>
+      (findFormatter BS.Gen.C09.xmlRegistry true nm).any fun e => (e.fn == 1 || e.fn == 2) && e.cdata == []) = true := by
+  decide
+
+example : (formatString BS.Gen.C09.htmlTable BS.Gen.C09.xmlTable BS.Gen.C09.htmlRegistry BS.Gen.C09.xmlRegistry
+    BS.Gen.C09.htmlDefaultCdata true (.key true (ofS "minimal")) (some (ofS "script")) (ofS "a<b")) = some (ofS "a&lt;b") := by
+  decide +kernel
+
+/-- `key="value"`: a list-valued attribute is joined with single spaces, substituted, quoted; what is read back from the quoted
+    part is the joined value. `None` renders the bare key. -/
+theorem formatAttribute_roundtrip (X : List (Nat × PStr)) (T : Tbl) (hx : XmlOK X T = true) (h : TblOK T = true)
+    (h5 : Html5FixOK T = true) (e : RegEntry) (he : e.fn = 1 ∨ e.fn = 2 ∨ e.fn = 3) (key : PStr) (v : AttrVal) :
+    match v.text with
+    | none => formatAttribute T X e key v = key
+    | some s => ∃ q, formatAttribute T X e key v = key ++ 61 :: q ∧ readAttr T q = some s := by
+  cases hv : v.text with
+  | none => simp [formatAttribute, hv]
+  | some s =>
+    simp only
+    exact ⟨_, by simp [formatAttribute, hv], formatter_attr_roundtrip X T hx h h5 e he s⟩
+
+example : (AttrVal.list [ofS "a", ofS "b c"]).text = some (ofS "a b c") := by decide
 
 end BS.Props.C09
